@@ -779,6 +779,9 @@ func streamCont(o *Out, r *rand.Rand, n int, thorough bool) {
 		}
 	}
 	for _, c := range []struct{ src, want string }{
+		{"x = make(S)\ny = make(S)\nx.D.a = 1\nx.C += 5\nx.G = [1]\n[len(x.D), len(y.D), len(x.C), len(y.C), y.G]", "[]iface[int64:1 int64:0 int64:1 int64:0 nil]"},
+		{"x = make(S)\ny = make(S)\ny.D[\"k\"] = 2\ndelete(y.D, \"k\")\nx.D[\"k\"] = 3\n[x.D.k, y.D.k, len(make(S).D)]", "[]iface[int64:3 nil int64:0]"},
+		{"a = make([]S, 2)\na[0].A = 1\n[a[0].A, a[1].A]", "SKIP"},
 		{"x = make(S)\nx.Nope = 1", "ERROR"}, {"x = make(S)\nx.Nope", "ERROR"}, {"x = make(S)\nx.A = 3\nx.A", "int64:3"},
 		{"x = make(S)\nx.C = [1, 2]\nx.C[1]", "int64:2"}, {"x = make(S)\nx.D = {\"a\": 1}\nx.D.a", "int64:1"}, {"x = make(S)\nx.G = [1]\nx.G", "[]iface[int64:1]"},
 	} {
@@ -790,6 +793,12 @@ func streamCont(o *Out, r *rand.Rand, n int, thorough bool) {
 			got = renderTyped(reflect.ValueOf(res))
 		}
 		o.Sum.Evaluations++
+		if c.want == "SKIP" {
+			if p != nil {
+				o.Fail(Failure{Oracle: "no-panic", Key: "cont-panic:struct-template", Input: c.src, Detail: fmt.Sprint(p)})
+			}
+			continue
+		}
 		if p != nil || got != c.want {
 			o.Fail(Failure{Oracle: "struct-fields", Key: "cont-struct-template", Input: c.src, Detail: fmt.Sprintf("expected %s, got %s (err %v, panic %v)", c.want, got, rerr, p)})
 		}
